@@ -350,6 +350,8 @@ def _c06(case, exe, work, res):
     for d, seg in zip(dels, segs):
         got = [_split_api(s) for s in d["retrievals"]]
         for a, t, bnk in got:
+            if a == "contains":
+                continue  # a presence query, only logged when the simulator denies it
             if not a.startswith(api):
                 viols.append({"property": "C06", "invariant": "retrieval-contract",
                               "detail": f"event {d['id']}: retrieval through {a!r}, the {case['backend']} idiom is {api}"})
@@ -618,3 +620,16 @@ def evidence(prop, agg):
             "blocked_by_backend": {b: st.get("blocked:" + b, 0) for b in BACKENDS},
             "explanation": "uncompilable packages are evidence against C02's second clause, which this family does not decide; they are "
                            "tallied here and otherwise ignored by the C05/C06 oracles"}
+
+
+def post_check(prop, agg):
+    """Coverage guard: on the unchanged tree every generated query that the translator accepts compiles against the
+    stand-in. If a large part of a backend's jobs does not compile, the check has lost its subject for that backend and
+    must not report a pass."""
+    st = agg.stats
+    for b in BACKENDS:
+        blocked = st.get("blocked:" + b, 0)
+        if blocked >= 10 and blocked > 0.3 * max(1, st.get("ok", 0)) / 3:
+            return (f"{blocked} generated {b} packages do not compile against the stand-in frameworks (0 on the reference tree): "
+                    f"the check cannot judge {prop} for this backend; first compiler errors are in the log of each run")
+    return None
